@@ -110,7 +110,7 @@ func c32Plain(q *gen.R) string {
 
 func genC32(seed int64, tier string, emit func(run.Case)) {
 	r := gen.New(seed)
-	n := tierN(tier, 240, 9000)
+	n := tierN(tier, 240, 6000)
 	for i := 0; i < n; i++ {
 		q := r.Sub(i)
 		var in c32In
